@@ -61,6 +61,9 @@ type extractor struct {
 	// `case ie.X: v := req.X()` (first child of that type of the whole grouped IE) is told apart from
 	// `v := i.X()` (this child)
 	walksChildren bool
+	// subst: when this extractor describes an own helper that builds one attribute from its parameters
+	// (attrs = append(attrs, newBARDelayAttr(v))), parameter name -> description of the caller's argument
+	subst map[string]string
 }
 
 func newExtractor(p *core.Program, fn *ssa.Function) *extractor {
@@ -105,6 +108,9 @@ func (x *extractor) describeLeaf(v ssa.Value, depth int) string {
 		}
 		return "const:" + y.Value.ExactString()
 	case *ssa.Parameter:
+		if d, ok := x.subst[y.Name()]; ok && d != "" {
+			return d
+		}
 		return "param:" + y.Name()
 	case *ssa.Extract:
 		if y.Index == 0 {
@@ -154,6 +160,39 @@ func (x *extractor) describeLeaf(v ssa.Value, depth int) string {
 	case *ssa.Convert:
 		return x.describeLeaf(y.X, depth+1)
 	}
+	// a field of a struct-typed local used as a bundle of variables (p.urrid = ...; ... p.urrid): what is
+	// read is what was stored into that field anywhere in the function; all non-zero stores must agree
+	// (the same rule as for a variable assigned in the loop and read after it)
+	if ld, ok := v.(*ssa.UnOp); ok && ld.Op == token.MUL {
+		if fa, ok := ld.X.(*ssa.FieldAddr); ok {
+			if al, ok := fa.X.(*ssa.Alloc); ok {
+				name, n := "", 0
+				agree := true
+				core.Instrs(x.fn, func(in ssa.Instruction) {
+					st, ok := in.(*ssa.Store)
+					if !ok {
+						return
+					}
+					fb, ok := st.Addr.(*ssa.FieldAddr)
+					if !ok || fb.X != ssa.Value(al) || fb.Field != fa.Field {
+						return
+					}
+					if k, ok := st.Val.(*ssa.Const); ok && (k.Value == nil || (k.Value.Kind() == constant.Int && constant.Sign(k.Value) == 0)) {
+						return
+					}
+					n++
+					d := x.describeLeaf(st.Val, depth+1)
+					if d == "" || (name != "" && d != name) {
+						agree = false
+					}
+					name = d
+				})
+				if n > 0 && agree && name != "" {
+					return name
+				}
+			}
+		}
+	}
 	if root, names := core.FieldPath(v); len(names) > 0 {
 		if b := x.describeLeaf(root, depth+1); b != "" {
 			return b + "." + strings.Join(names, ".")
@@ -172,6 +211,27 @@ func (x *extractor) describeLeaf(v ssa.Value, depth int) string {
 			}
 			if len(desc) == 1 {
 				return desc[0] + "." + strings.Join(names, ".")
+			}
+			// the decoded value is itself a field of a struct-typed local: p.t.Unmarshal(<bytes>); ... p.t.F
+			if len(desc) == 0 && len(names) >= 2 {
+				for _, r := range *al.Referrers() {
+					fa, ok := r.(*ssa.FieldAddr)
+					if !ok || core.FieldOfAddr(fa).Name() != names[0] {
+						continue
+					}
+					for _, r2 := range *fa.Referrers() {
+						if cl, ok := r2.(*ssa.Call); ok {
+							if f := core.Callee(cl); f != nil && f.Name() == "Unmarshal" && core.CallRecv(cl) == ssa.Value(fa) {
+								if n := core.RecvNamed(f); n != nil {
+									desc = append(desc, n.Obj().Name()+".Unmarshal("+x.describeLeaf(core.CallArgs(cl)[0], depth+1)+")")
+								}
+							}
+						}
+					}
+				}
+				if len(desc) == 1 {
+					return desc[0] + "." + strings.Join(names[1:], ".")
+				}
 			}
 			// ... or decoded by an own helper: t, err := decodeT(i) with `var t T; t.Unmarshal(i.X()); return t, err`
 			// inside; the helper is described with its IE parameter standing for the IE handed to it
@@ -551,6 +611,40 @@ func (x *extractor) extract() ([]attrRow, []string) {
 					c2.list = l.Name
 				}
 				for _, a := range y.Args[1:] {
+					// an own helper that returns one attribute literal built from its parameters
+					if hc, isCall := ast.Unparen(a).(*ast.CallExpr); isCall {
+						if hf := core.CalleeOfExpr(x.info, hc); hf != nil && x.p.IsOwn(hf.Pkg()) {
+							if hs := x.p.SSAFn(hf); hs != nil && hs.Syntax() != nil && hs != x.fn {
+								if sig := hf.Type().(*types.Signature); sig.Results().Len() == 1 && (x.isNLType(sig.Results().At(0).Type(), "Attr")) {
+									x2 := newExtractor(x.p, hs)
+									x2.subst = map[string]string{}
+									for i := 0; i < sig.Params().Len() && i < len(hc.Args); i++ {
+										// describe the caller's argument through its SSA value at the call
+										if in := x.callAt(hc); in != nil && i < len(in.Call.Args) {
+											off := 0
+											if sig.Recv() != nil {
+												off = 1
+											}
+											if off+i < len(in.Call.Args) {
+												x2.subst[sig.Params().At(i).Name()] = x.describeLeaf(in.Call.Args[off+i], 0)
+											}
+										}
+									}
+									hrows, hprobs := x2.extract()
+									if len(hrows) == 1 {
+										r := hrows[0]
+										r.Fn, r.List, r.Parent = fnName, c2.list, c2.parent
+										r.Cases = strings.Join(c2.cases, "/")
+										r.Guards = strings.Join(c2.guards, "&")
+										r.pos = hc.Pos()
+										rows = append(rows, r)
+										problems = append(problems, hprobs...)
+										continue
+									}
+								}
+							}
+						}
+					}
 					walk(a, c2)
 				}
 				return
@@ -976,4 +1070,16 @@ func DumpTables(p *core.Program) {
 		sort.Strings(arms)
 		fmt.Println("READER", n, arms)
 	}
+}
+
+// callAt returns the SSA call instruction of a call expression of x.fn (matched by the position of its
+// opening parenthesis).
+func (x *extractor) callAt(call *ast.CallExpr) *ssa.Call {
+	var out *ssa.Call
+	core.Instrs(x.fn, func(in ssa.Instruction) {
+		if cl, ok := in.(*ssa.Call); ok && cl.Pos() == call.Lparen {
+			out = cl
+		}
+	})
+	return out
 }
